@@ -1,9 +1,28 @@
+/* HamiltonianPart -- one block of the Hamiltonian: fill (prepare), diagonalise (compute), accessors.   Property C03
+ * (block-wise diagonalisation), C07 clause "row index of a matrix element looked up inside the ket's block".
+ *
+ * What is proved here (per function, see the contracts):
+ *   prepare : H is BlockSize x BlockSize; for an arbitrary column r and an arbitrary entry (bra, melem) of the map
+ *             F.actRight(ket_r):  H(pos(bra), r) == melem;  an arbitrary cell (i, r) that no entry of that map addresses
+ *             is 0;  every write is inside H -- the latter under the NAMED HYPOTHESIS HYP_BLOCKDIAG (below).
+ *   compute : 1x1 block: eigenvalue = H(0,0), eigenvector = (1);  otherwise the ASSUMED contract of Eigen's solver is
+ *             handed through (ascending, finite);  frame H / Eigenvalues / Status;  no-op when already computed.
+ *   getEigenValue, getMinimumEigenvalue, getSize: documented values, exceptional exits.
+ *
+ * NAMED HYPOTHESIS  HYP_BLOCKDIAG  ("actRight maps the block into itself" = block-diagonality of H, C07):
+ *   every key of F.actRight(ket) is a Fock state of the same block as ket.  It is ASSUMED in fm_entry() (the model of the
+ *   returned map) and in the requires clause for the ghost entry; it is what C07's partition contract
+ *   (StatesClassification::compute + Symmetrizer) has to deliver.  Without it `H(left_st,right_st)` writes outside H
+ *   (getInnerState returns the position inside the bra's OWN block).  REACH label "hyp-blockdiag-used".
+ */
 #include "../stubs/common.h"
 #include "../stubs/dense.h"
+#include "../stubs/eigsolver.h"
+#include "../stubs/bitset.h"
 //@include types_common.inc
 //@type (Pomerol::)?RealVectorType|Eigen::Matrix<double, -1, 1(, 0)?(, -1, 1)?> => RealVector ptr
 //@type (Pomerol::)?(Real)?MatrixType|Eigen::Matrix<double, -1, -1(, 1)?(, -1, -1)?> => RealMatrix ptr
-//@type (Pomerol::)?FockState|boost::dynamic_bitset<.*> => FockState val
+//@type (Pomerol::)?FockState|boost::dynamic_bitset<.*> => Bitset val
 //@type std::map<(Pomerol::)?FockState, (Pomerol::)?MelemType.*>|std::map<boost::dynamic_bitset<.*>, double.*> => FockMap ptr
 //@type std::map<(Pomerol::)?FockState, (Pomerol::)?MelemType.*>::(const_)?iterator|std::_Rb_tree_(const_)?iterator<std::pair<const boost::dynamic_bitset<.*>, double> ?>(::(iterator|_Self))?|std::map<boost::dynamic_bitset<.*>, double.*>::(const_)?iterator => FockMapIt val
 //@type Eigen::SelfAdjointEigenSolver<.*> => EigSolver ptr
@@ -11,17 +30,269 @@
 //@record Pomerol::IndexHamiltonian => struct Operator ptr
 //@tu src/pomerol/HamiltonianPart.cpp
 //@enum ComputableObject::
+typedef struct BlockNumber BlockNumber;
 //@struct Pomerol::BlockNumber
+struct Operator { int opaque; };     /* the symbolic Hamiltonian: only actRight() is used, modelled below */
+//@struct Pomerol::StatesClassification only=StateSize,IndexSize,Status
+//@extra
+long nblocks;                        /* ghost: StatesContainer.size() */
+//@end
+
+/* ---- StatesClassification: callee contracts (the functions themselves are C07 / pkgE's).  The classification is the
+ * abstract partition  state -> (block, position)  given by uninterpreted functions; what is ASSUMED about it is exactly
+ * C07's "every Fock state belongs to exactly one block and is recovered from its (block, position) address". */
+unsigned long __CPROVER_uninterpreted_sc_size(long block);                    /* number of states of a block */
+long          __CPROVER_uninterpreted_sc_block(unsigned long w);              /* block of a Fock state */
+unsigned long __CPROVER_uninterpreted_sc_pos(unsigned long w);                /* position inside its block */
+unsigned long __CPROVER_uninterpreted_sc_state(long block, unsigned long pos);/* the state at (block, position) */
+#define sc_size  __CPROVER_uninterpreted_sc_size
+#define sc_block __CPROVER_uninterpreted_sc_block
+#define sc_pos   __CPROVER_uninterpreted_sc_pos
+#define sc_state __CPROVER_uninterpreted_sc_state
+#define SC_MAXSTATES (1UL << 30)     /* pomerol computes 1<<IndexSize in int: IndexSize <= 30 */
+static inline _Bool StatesClassification_wf(struct StatesClassification *S)
+{ return S->nblocks >= 0 && S->nblocks <= (long)SC_MAXSTATES && S->StateSize <= SC_MAXSTATES && S->IndexSize <= 30 &&
+         S->Status <= Computed; }
+static inline unsigned long StatesClassification_getBlockSize(struct StatesClassification *S, BlockNumber in)
+{
+  if (S->Status < Computed) { VERIF_THROW("exStatusMismatch"); return nondet_ulong(); }
+  /* the real function indexes StatesContainer[in] unchecked: ASSERTED */
+  __CPROVER_assert(0 <= in.number && in.number < S->nblocks, "StatesClassification::getBlockSize: block number inside StatesContainer");
+  unsigned long r = sc_size(in.number);
+  __CPROVER_assume(1 <= r && r <= S->StateSize);   /* ASSUMED (C07): a block is created with its first state; blocks partition the StateSize states */
+  return r;
+}
+static inline Bitset StatesClassification_getFockState(struct StatesClassification *S, BlockNumber in, unsigned long m)
+{
+  Bitset r = { nondet_ulong(), nondet_ulong() };
+  if (S->Status < Computed) { VERIF_THROW("exStatusMismatch"); return r; }
+  if (0 <= in.number && in.number < S->nblocks && m < sc_size(in.number)) {
+    r.w = sc_state(in.number, m); r.size = S->IndexSize;
+    /* ASSUMED (C07, address recovery): the state stored at (block, m) has block `block` and position m */
+    __CPROVER_assume(r.w < S->StateSize && sc_block(r.w) == in.number && sc_pos(r.w) == m);
+    return r;
+  }
+  VERIF_THROW("exWrongState"); return r;
+}
+static inline unsigned long StatesClassification_getInnerState(struct StatesClassification *S, Bitset state)
+{
+  if (S->Status < Computed) { VERIF_THROW("exStatusMismatch"); return nondet_ulong(); }
+  if (state.w >= S->StateSize || state.size != S->IndexSize) { VERIF_THROW("exWrongState"); return S->StateSize; }
+  long b = sc_block(state.w);
+  unsigned long n = sc_pos(state.w);
+  /* ASSUMED (C07): every state < StateSize has a block, and is found at its position inside that block */
+  __CPROVER_assume(0 <= b && b < S->nblocks && n < sc_size(b) && sc_state(b, n) == state.w);
+  return n;
+}
+
+/* ---- std::map<FockState,MelemType> returned by Operator::actRight(ket): "a map of states and corresponding matrix
+ * elements, which are the result of an action" (Operator.h).  Model: the map is a FUNCTION of the ket (uninterpreted
+ * ar_n / ar_key / ar_val), iterated in key order.  Ghost entry: ordinal g_e of the map of the ghost column's ket. */
+unsigned long __CPROVER_uninterpreted_ar_n(unsigned long ket);
+unsigned long __CPROVER_uninterpreted_ar_key(unsigned long ket, long pos);
+double        __CPROVER_uninterpreted_ar_val(unsigned long ket, long pos);
+#define ar_n   __CPROVER_uninterpreted_ar_n
+#define ar_key __CPROVER_uninterpreted_ar_key
+#define ar_val __CPROVER_uninterpreted_ar_val
+typedef struct FockPair { Bitset first; double second; } FockPair;
+typedef struct FockMap { Bitset ket; long n; } FockMap;
+typedef struct FockMapIt { Bitset ket; long n, pos; FockPair cur; } FockMapIt;
+/* ghosts, fixed by the contract's requires clause */
+unsigned long g_StateSize;   /* = S.StateSize */
+long   g_r;                  /* ghost column */
+Bitset g_ket;                /* = S.getFockState(Block, g_r) */
+long   g_e;                  /* ordinal of the ghost entry in actRight(g_ket), or -1: no ghost entry */
+Bitset g_bra; double g_melem;/* the ghost entry */
+long   g_p;                  /* = position of g_bra in the block */
+long   g_i;                  /* ghost row for the "zero elsewhere" clause */
+_Bool  g_rowhit;             /* monitor: an entry of actRight(g_ket) whose position is g_i has been visited */
+#define FM_MAX 1000000L
+static inline FockMap Operator_actRight(struct Operator *F, Bitset ket)
+{
+  FockMap m; m.ket = ket; m.n = (long)ar_n(ket.w);
+  __CPROVER_assume(0 <= m.n && m.n <= FM_MAX);          /* ASSUMED: size() is a count (at most one entry per monomial) */
+  return m;
+}
+static inline FockPair fm_entry(Bitset ket, long pos)
+{
+  FockPair p; p.first.w = ar_key(ket.w, pos); p.first.size = ket.size; p.second = ar_val(ket.w, pos);
+  /* ASSUMED (std::map): iteration in strictly increasing key order -- point-wise against the ghost entry */
+  if (ket.w == g_ket.w && g_e >= 0) {
+    if (pos < g_e) __CPROVER_assume(p.first.w < g_bra.w);
+    if (pos > g_e) __CPROVER_assume(p.first.w > g_bra.w);
+  }
+  /* NAMED HYPOTHESIS HYP_BLOCKDIAG (C07): the operator maps the block into itself */
+  __CPROVER_assume(p.first.w < g_StateSize && sc_block(p.first.w) == sc_block(ket.w));
+  REACH("hyp-blockdiag-used");
+  /* monitor for the "zero elsewhere" clause */
+  if (ket.w == g_ket.w && sc_pos(p.first.w) == (unsigned long)g_i) g_rowhit = 1;
+  return p;
+}
+#define FockMapIt_ctor0() ((FockMapIt){ {0UL, 0UL}, 0L, 0L, { {0UL, 0UL}, 0.0 } })
+#define FockMap_begin(m) ((FockMapIt){ (m)->ket, (m)->n, 0L, { {0UL, 0UL}, 0.0 } })
+#define FockMap_end(m)   ((FockMapIt){ (m)->ket, (m)->n, (m)->n, { {0UL, 0UL}, 0.0 } })
+#define FockMapIt_assign(a, b) (*(a) = (b))
+#define op_ne_FockMapIt_FockMapIt(a, b) ((a).pos != (b).pos)
+#define FockMapIt_postinc(it) ((it)->pos++)
+#define FockMapIt_arrow(it) ({ \
+  __CPROVER_assert(0 <= (it)->pos && (it)->pos < (it)->n, "std::map iterator dereferenced only before end()"); \
+  (it)->cur = fm_entry((it)->ket, (it)->pos); &(it)->cur; })
+
 //@struct Pomerol::HamiltonianPart skip=IndexInfo,QN embed=F,S
+
+#define HP_BLOCKSIZE(self) sc_size((self)->Block.number)
+#define HCELL(self, i, j) ((self)->H.data[DENSE_IDX(i, j)])
+#define LVBITS(x) (*(const unsigned long *)&(x))   /* bit pattern of a double lvalue (loop invariants must not call functions) */
+unsigned long g_bs;          /* ghost: the block size (calls are not allowed in loop invariants) */
+//@maythrow StatesClassification_getBlockSize StatesClassification_getFockState StatesClassification_getInnerState
 //@function Pomerol::HamiltonianPart::prepare() as HamiltonianPart_prepare
+//@contract
+__CPROVER_requires(__CPROVER_is_fresh(self, sizeof(*self)))
+__CPROVER_requires(StatesClassification_wf(&self->S) && self->S.Status == Computed && g_StateSize == self->S.StateSize)
+/* the part was constructed for an existing block */
+__CPROVER_requires(0 <= self->Block.number && self->Block.number < self->S.nblocks)
+/* the block matrix can be allocated (a 2^20 x 2^20 matrix of doubles is 8 TB) */
+__CPROVER_requires(HP_BLOCKSIZE(self) <= DENSE_MAXDIM && g_bs == HP_BLOCKSIZE(self))
+/* ghost column r, its ket, ghost entry (bra, melem) of actRight(ket_r) -- or no entry (g_e == -1) */
+__CPROVER_requires(0 <= g_r && (unsigned long)g_r < HP_BLOCKSIZE(self))
+__CPROVER_requires(g_ket.w == sc_state(self->Block.number, (unsigned long)g_r) && g_ket.size == self->S.IndexSize)
+/* (C07 address recovery for the ghost ket, the same clause that getFockState's contract delivers for every ket) */
+__CPROVER_requires(g_ket.w < self->S.StateSize && sc_block(g_ket.w) == self->Block.number && sc_pos(g_ket.w) == (unsigned long)g_r)
+__CPROVER_requires(-1 <= g_e && g_e < (long)ar_n(g_ket.w))
+__CPROVER_requires(g_e >= 0 ==> (g_bra.w == ar_key(g_ket.w, g_e) && g_bra.size == g_ket.size && D_SAME(g_melem, ar_val(g_ket.w, g_e))))
+/* HYP_BLOCKDIAG for the ghost entry + C07 address recovery for it */
+__CPROVER_requires(g_e >= 0 ==> (g_bra.w < self->S.StateSize && sc_block(g_bra.w) == self->Block.number &&
+                                 g_p == (long)sc_pos(g_bra.w) && 0 <= g_p && (unsigned long)g_p < HP_BLOCKSIZE(self) &&
+                                 sc_state(self->Block.number, (unsigned long)g_p) == g_bra.w))
+/* (g_p is not used without a ghost entry; fixed to 0 so that the loop-entry snapshots of the invariants are defined) */
+__CPROVER_requires(g_e < 0 ==> g_p == 0)
+/* ghost row for the zero clause */
+__CPROVER_requires(0 <= g_i && (unsigned long)g_i < HP_BLOCKSIZE(self) && !g_rowhit && !VERIF_thrown)
+__CPROVER_assigns(self->H.rows, self->H.cols, self->H.data, self->Status, VERIF_thrown, g_rowhit)
+__CPROVER_ensures(!VERIF_thrown && self->Status == Prepared)
+__CPROVER_ensures(self->H.rows == (long)HP_BLOCKSIZE(self) && self->H.cols == (long)HP_BLOCKSIZE(self))
+/* C03: <bra|H|ket_r> of the symbolic Hamiltonian is stored at (position of bra, r) */
+__CPROVER_ensures(g_e >= 0 ==> D_SAME(HCELL(self, g_p, g_r), g_melem))
+/* ... and a cell that no entry of actRight(ket_r) addresses is zero */
+__CPROVER_ensures(!g_rowhit ==> D_SAME(HCELL(self, g_i, g_r), 0.0))
+//@loop 1
+__CPROVER_assigns(right_st, melem_it, g_rowhit, VERIF_thrown, __CPROVER_object_whole(self->H.data))
+__CPROVER_loop_invariant(right_st <= BlockSize && BlockSize == g_bs && self->H.rows == (long)BlockSize && self->H.cols == (long)BlockSize)
+__CPROVER_loop_invariant(!VERIF_thrown)
+__CPROVER_loop_invariant(right_st <= (unsigned long)g_r ==> (!g_rowhit && LVBITS(HCELL(self, g_i, g_r)) == 0UL && (g_e >= 0 ==> LVBITS(HCELL(self, g_p, g_r)) == 0UL)))
+__CPROVER_loop_invariant(right_st > (unsigned long)g_r ==> ((g_e >= 0 ==> LVBITS(HCELL(self, g_p, g_r)) == LVBITS(g_melem)) && (!g_rowhit ==> LVBITS(HCELL(self, g_i, g_r)) == 0UL)))
+__CPROVER_decreases(BlockSize - right_st)
+//@loop 2
+__CPROVER_assigns(melem_it, g_rowhit, VERIF_thrown, __CPROVER_object_whole(self->H.data))
+__CPROVER_loop_invariant(melem_it.ket.w == ket.w && melem_it.ket.size == ket.size && melem_it.n == mapStates.n && 0 <= melem_it.pos && melem_it.pos <= melem_it.n)
+__CPROVER_loop_invariant(!VERIF_thrown)
+__CPROVER_loop_invariant(right_st != (unsigned long)g_r ==>
+    (g_rowhit == __CPROVER_loop_entry(g_rowhit) && LVBITS(HCELL(self, g_i, g_r)) == __CPROVER_loop_entry(LVBITS(HCELL(self, g_i, g_r))) &&
+     (g_e >= 0 ==> LVBITS(HCELL(self, g_p, g_r)) == __CPROVER_loop_entry(LVBITS(HCELL(self, g_p, g_r))))))
+__CPROVER_loop_invariant(right_st == (unsigned long)g_r ==>
+    ((!g_rowhit ==> LVBITS(HCELL(self, g_i, g_r)) == 0UL) &&
+     ((g_e >= 0 && melem_it.pos > g_e) ==> LVBITS(HCELL(self, g_p, g_r)) == LVBITS(g_melem))))
+__CPROVER_decreases(melem_it.n - melem_it.pos)
 //@end
+
+//@harness h_HP_prepare enforce=HamiltonianPart_prepare props=C03,C07 min_obl=100 timeout=900 reach=3
+void h_HP_prepare(void)
+{
+  struct HamiltonianPart *p;
+  HamiltonianPart_prepare(p);
+  if (g_e >= 0) REACH("exit-with-ghost-entry"); else REACH("exit-without-ghost-entry");
+}
+
+/* ---------------------------------------------------------------------------------------------- compute */
 //@function Pomerol::HamiltonianPart::compute() as HamiltonianPart_compute
+//@contract
+__CPROVER_requires(__CPROVER_is_fresh(self, sizeof(*self)))
+__CPROVER_requires(self->Status <= Computed)
+/* type invariant after prepare(): H square, 1 <= BlockSize */
+__CPROVER_requires(RealMatrix_wf(&self->H, DENSE_MAXDIM) && self->H.rows == self->H.cols && self->H.rows >= 1)
+__CPROVER_requires(RealVector_wf(&self->Eigenvalues, DENSE_MAXDIM))
+__CPROVER_requires(self->Status >= Computed ==> self->Eigenvalues.size == self->H.rows)
+/* frame: nothing at all when already computed; otherwise H, Eigenvalues, Status only */
+__CPROVER_assigns(self->Status < Computed: self->H.rows, self->H.cols, self->H.data, __CPROVER_object_whole(self->H.data),
+                  self->Eigenvalues.size, self->Eigenvalues.data, self->Status)
+__CPROVER_ensures(self->Status == Computed)
+__CPROVER_ensures(self->H.rows == __CPROVER_old(self->H.rows) && self->H.cols == __CPROVER_old(self->H.cols) && self->Eigenvalues.size == self->H.rows)
+/* one-dimensional block: eigenvalue = the matrix element, eigenvector = (1) */
+__CPROVER_ensures((__CPROVER_old(self->Status) < Computed && self->H.rows == 1) ==>
+                  (D_SAME(self->Eigenvalues.data[0], __CPROVER_old(self->H.data[0])) && D_SAME(self->H.data[0], 1.0)))
+/* larger block: what Eigen guarantees is what the part stores -- ascending (ghost pair), finite for finite input */
+__CPROVER_ensures((__CPROVER_old(self->Status) < Computed && self->H.rows > 1 && 0 <= eig_g_a && eig_g_a <= eig_g_b && eig_g_b < self->Eigenvalues.size) ==>
+                  D_LE(self->Eigenvalues.data[eig_g_a], self->Eigenvalues.data[eig_g_b]))
+__CPROVER_ensures((__CPROVER_old(self->Status) < Computed && self->H.rows > 1 && eig_g_input_finite && 0 <= eig_g_b && eig_g_b < self->Eigenvalues.size) ==>
+                  d_finite(self->Eigenvalues.data[eig_g_b]))
 //@end
+
+//@harness h_HP_compute enforce=HamiltonianPart_compute props=C03 min_obl=100 timeout=600 reach=3 defs=-DVERIF_FP_IEEE
+void h_HP_compute(void)
+{
+  struct HamiltonianPart *p;
+  HamiltonianPart_compute(p);
+  REACH("exit");
+}
+
+/* ---------------------------------------------------------------------------------------------- accessors */
+//@maythrow HamiltonianPart_getEigenValue HamiltonianPart_getMinimumEigenvalue
 //@function Pomerol::HamiltonianPart::getEigenValue(unsigned long) const as HamiltonianPart_getEigenValue
+//@contract
+__CPROVER_requires(__CPROVER_is_fresh(self, sizeof(*self)) && RealVector_wf(&self->Eigenvalues, DENSE_MAXDIM) && !VERIF_thrown)
+/* Eigen does not check the index: the caller's obligation */
+__CPROVER_requires(self->Status >= Computed ==> state < (unsigned long)self->Eigenvalues.size)
+__CPROVER_assigns(VERIF_thrown)
+__CPROVER_ensures(VERIF_thrown == (self->Status < Computed))
+__CPROVER_ensures(!VERIF_thrown ==> D_SAME(__CPROVER_return_value, self->Eigenvalues.data[state]))
 //@end
+//@harness h_HP_getEigenValue enforce=HamiltonianPart_getEigenValue props=C03 min_obl=20 reach=2
+void h_HP_getEigenValue(void)
+{
+  struct HamiltonianPart *p; unsigned long s;
+  HamiltonianPart_getEigenValue(p, s);
+  if (VERIF_thrown) REACH("thrown"); else REACH("value");
+}
+
+/* "Return the lowest Eigenvalue of the current part": not greater than any stored eigenvalue (ghost k) and one of them;
+ * consistent with the solver contract: for an ascending vector it is the FIRST eigenvalue. */
 //@function Pomerol::HamiltonianPart::getMinimumEigenvalue() const as HamiltonianPart_getMinimumEigenvalue
+//@contract
+__CPROVER_requires(__CPROVER_is_fresh(self, sizeof(*self)) && RealVector_wf(&self->Eigenvalues, DENSE_MAXDIM) && !VERIF_thrown)
+/* type invariant of a computed part: BlockSize >= 1 eigenvalues, none NaN (solver contract A4), ascending (A3, instantiated
+ * at the pair (0, dense_g_minpos) -- dense_g_minpos is arbitrary) */
+__CPROVER_requires(self->Status >= Computed ==> (self->Eigenvalues.size >= 1 && dense_g_nonan && !dense_g_minpos_used))
+__CPROVER_requires((self->Status >= Computed && 0 <= dense_g_k && dense_g_k < self->Eigenvalues.size) ==> self->Eigenvalues.data[dense_g_k] == self->Eigenvalues.data[dense_g_k])
+__CPROVER_requires((self->Status >= Computed && 0 <= dense_g_minpos && dense_g_minpos < self->Eigenvalues.size) ==>
+                   D_LE(self->Eigenvalues.data[0], self->Eigenvalues.data[dense_g_minpos]))
+__CPROVER_assigns(VERIF_thrown, dense_g_minpos_used)
+__CPROVER_ensures(VERIF_thrown == (self->Status < Computed))
+__CPROVER_ensures((!VERIF_thrown && 0 <= dense_g_k && dense_g_k < self->Eigenvalues.size) ==> D_LE(__CPROVER_return_value, self->Eigenvalues.data[dense_g_k]))
+__CPROVER_ensures(!VERIF_thrown ==> (0 <= dense_g_minpos && dense_g_minpos < self->Eigenvalues.size && D_SAME(__CPROVER_return_value, self->Eigenvalues.data[dense_g_minpos])))
+/* (the ghost position of the minCoeff contract instantiated at 0) */
+__CPROVER_ensures((!VERIF_thrown && dense_g_k == 0) ==> D_EQ(__CPROVER_return_value, self->Eigenvalues.data[0]))
 //@end
+//@harness h_HP_getMinimumEigenvalue enforce=HamiltonianPart_getMinimumEigenvalue props=C03 min_obl=20 reach=2 defs=-DVERIF_FP_IEEE
+void h_HP_getMinimumEigenvalue(void)
+{
+  struct HamiltonianPart *p;
+  HamiltonianPart_getMinimumEigenvalue(p);
+  if (VERIF_thrown) REACH("thrown"); else REACH("value");
+}
+
+/* "Return the total dimensionality of the H matrix. This corresponds to the one in StatesClassfication." */
 //@function Pomerol::HamiltonianPart::getSize() const as HamiltonianPart_getSize
+//@contract
+__CPROVER_requires(__CPROVER_is_fresh(self, sizeof(*self)) && StatesClassification_wf(&self->S) && !VERIF_thrown)
+__CPROVER_requires(0 <= self->Block.number && self->Block.number < self->S.nblocks)
+__CPROVER_assigns(VERIF_thrown)
+__CPROVER_ensures(VERIF_thrown == (self->S.Status < Computed))
+__CPROVER_ensures(!VERIF_thrown ==> __CPROVER_return_value == HP_BLOCKSIZE(self))
 //@end
-//@function Pomerol::HamiltonianPart::getBlockNumber() const as HamiltonianPart_getBlockNumber
-//@end
+//@harness h_HP_getSize enforce=HamiltonianPart_getSize props=C03 min_obl=10 reach=2
+void h_HP_getSize(void)
+{
+  struct HamiltonianPart *p;
+  HamiltonianPart_getSize(p);
+  if (VERIF_thrown) REACH("thrown"); else REACH("value");
+}
